@@ -6,7 +6,7 @@ import math
 from .. import common
 
 SPEC = dict(
-    claim='rotateAround = Rodrigues rotation about axis/|axis| for every angle, non-zero axis and vector is a Lean/Mathlib theorem over the reals (five cases incl. all zero-component families), with length, axial component and perpendicular-turn corollaries. The same definition runs at Float in the driver and is compared bit-for-bit with the real function on the 26 zero-component families and random triples; the real function is also compared with the closed form.',
+    claim='rotateAround = Rodrigues rotation about axis/|axis| for every angle, non-zero axis and vector is a Lean/Mathlib theorem over the reals (five cases incl. all zero-component families), with length, axial component and perpendicular-turn corollaries. The same definition runs at Float in the driver and is compared bit-for-bit with the real function on the 26 zero-component families and random triples; the real function is also compared with the closed form. The model\'s zero tests are numeric like Python\'s (nz x = x + 0 turns -0.0 into 0.0; nz_real: the identity on the reals) - the bit-wise equality of Float had sent an axis component -0.0 down the non-zero branch; axes with negative zeros are among the families.',
     note='Trusted: Lean kernel + standard axioms, harness; IEEE rounding not modelled (theorem over R; Float model compared, bit-identical in practice); libm shared between CPython and Lean runtime.',
     technique='Lean 4/Mathlib proof over the reals + bitwise Float correspondence',
     lean=["Propka.Props.C20"],
